@@ -210,7 +210,7 @@ Record tables := {
 
 Definition generate_tables (gi : ginfo) : gen_error + tables :=
   match unproductive gi with
-  | _ :: _ as l => inl (EUnproductive l)
+  | (_ :: _) as l => inl (EUnproductive l)
   | [] =>
     match build (gi_rules gi) with
     | None => inl ETooManyStates
